@@ -37,7 +37,7 @@ def readable(lines):
     return out
 
 
-def run_serve_suite(R, ctx, name, nsess, what, parallel=0, stalls=(), parallel_select=0, **genargs):
+def run_serve_suite(R, ctx, name, nsess, what, parallel=0, stalls=(), parallel_select=0, select_sweep=(), **genargs):
     R.rule = ("sessions: 1-4 connections (net.Pipe) against one server.Manager.Handle; each step writes a pipeline of 1-5 commands (string/key "
               "commands, SELECT with valid and invalid arguments, SUBSCRIBE, PUBLISH with binary payloads, values that are not commands, "
               "protocol damage) followed by a sentinel PING, and collects every byte the server wrote; drains collect Pub/Sub pushes; some "
@@ -60,6 +60,8 @@ def run_serve_suite(R, ctx, name, nsess, what, parallel=0, stalls=(), parallel_s
         lines += servegen.slow_reader_session(rng, ms)
     for _ in range(parallel_select if R.tier == "quick" else parallel_select * 10):
         lines += servegen.parallel_select_session(rng)
+    for ndb in select_sweep:
+        lines += servegen.select_sweep(ndb)
     obs, d, crashes, se = judge(binary, lines)
     core.negative_control(R, obs, "serve/" + name, skip=lambda l: not l.startswith("C ") or " => " not in l, group=True)
     kinds = collections.Counter(l.split()[0] for l in obs)
